@@ -69,7 +69,7 @@ type pkg struct {
 	repo  string
 	fset  *token.FileSet
 	files []*ast.File
-	funcs map[string]*ast.FuncDecl // top-level functions (no receiver)
+	funcs map[string]*ast.FuncDecl   // top-level functions (no receiver)
 	meths map[string][]*ast.FuncDecl // methods of the package's types, by name (any receiver)
 	// per file: import alias -> import path
 	imports map[*ast.File]map[string]string
@@ -303,11 +303,15 @@ func (a *analyzer) classify(p *pkg, f *ast.File, e ast.Expr) (string, []string, 
 
 // external middlewares known not to rewrite the request method or path
 var externalOK = map[string]string{
-	"github.com/go-chi/cors":                         "cors",
-	"github.com/go-chi/chi/v5/middleware":            "middleware.Recoverer",
-	"github.com/riandyrn/otelchi":                    "otelchi.Middleware",
-	"github.com/formancehq/stack/libs/go-libs/auth":  "auth.Middleware",
+	"github.com/go-chi/cors":                        "cors",
+	"github.com/go-chi/chi/v5/middleware":           "middleware.",
+	"github.com/riandyrn/otelchi":                   "otelchi.Middleware",
+	"github.com/formancehq/stack/libs/go-libs/auth": "auth.Middleware",
 }
+
+// the members of chi's middleware package that change the method or the path chi routes on (or wrap arbitrary code)
+var chiRewriting = map[string]bool{"GetHead": true, "StripSlashes": true, "RedirectSlashes": true, "CleanPath": true, "URLFormat": true,
+	"PathRewrite": true, "RouteHeaders": true, "Maybe": true, "New": true}
 
 // rewrites reports a mention that could change how the request is routed after the gate, or a write.
 func rewrites(p *pkg, n ast.Node) string {
@@ -385,6 +389,9 @@ func (a *analyzer) middleware(p *pkg, f *ast.File, e ast.Expr) error {
 			return check(q, x.Sel.Name)
 		}
 		want, ok := externalOK[path]
+		if ok && chiRewriting[x.Sel.Name] && path == "github.com/go-chi/chi/v5/middleware" {
+			return fmt.Errorf("%s: middleware %s changes how chi routes the request: not modelled", p.pos(e), render(e))
+		}
 		if !ok || !strings.HasPrefix(render(e), want) {
 			return fmt.Errorf("%s: middleware %s (package %s) is not on the list of known method-preserving middlewares", p.pos(e), render(e), path)
 		}
